@@ -135,6 +135,12 @@ impl Run {
             if self.http {
                 tags.push("C14");
             }
+            // an upload that meets every condition of acceptance and is not accepted
+            match &op {
+                SymOp::AddVersion { .. } => tags.push("C02"),
+                SymOp::AddSnapshot { .. } => tags.extend(["C10", "C11"]),
+                _ => {}
+            }
             self.find(tags, &format!("failure|{}", op_kind(&op)), format!("{} was answered with a failure: {}", op.describe(), brief(&got)));
             return got;
         }
